@@ -325,7 +325,7 @@ def gen(tier, rnd):
            (1, good_rsp.replace(b'Upgrade: websocket', b'Upgrade')), (1, good_rsp.replace(b'coap', b'mqtt')), (1, good_rsp[:-2] + b'\x00\r\n'), (1, b'\x00' * 200), (1, b'\xff' * 500),
            (1, good_rsp + bytes([0x82, 0x80, 0, 0, 0, 0])), (1, good_rsp + bytes([0x82, 0xfe])), (1, good_rsp + b'\x82\x7f' + b'\xff' * 8), (1, good_rsp + bytes([0x82, 0x01, 0x01])),
            (1, good_rsp + bytes([0x88, 0x00])), (1, good_rsp + bytes([0x82, 0x00]) * 9), (1, good_rsp[:-2] + agent(159) + b'\r\n\r\n'), (1, good_rsp[:-2] + agent(160) + b'\r\n\r\n')]
-    for _ in range(150 if tier == 'quick' else 3000):
+    for _ in range(150 if tier == 'quick' else 10000):
         role_ = rnd.randrange(2)
         b = bytearray(good_rsp if role_ else good_req)
         for _m in range(rnd.randint(1, 4)):
@@ -347,7 +347,7 @@ def gen(tier, rnd):
     # ---- byte streams that are NOT valid CoAP-over-TCP / WebSocket frames (hostile=1: robustness only): random bytes, valid streams with random edits,
     #      for server and client sessions, with and without the opening CSM ----
     allnames = list(C)
-    for _ in range(250 if tier == 'quick' else 6000):
+    for _ in range(250 if tier == 'quick' else 20000):
         role_ = rnd.randrange(2)
         wsx = rnd.random() < 0.4
         r_ = rnd.random()
@@ -378,7 +378,7 @@ def gen(tier, rnd):
         case(sl, ch, ws=1 if wsx else 0, http=len(hs), role=role_, hostile=1, edge=1 if (not wsx and rnd.random() < 0.2) else 0)
     # random streams and random cuts
     names = [k for k in C if k not in ('release', 'abort', 'release_holdoff', 'abort_diag')]
-    for _ in range(600 if tier == 'quick' else 30000):
+    for _ in range(600 if tier == 'quick' else 120000):
         role = 1 if rnd.random() < 0.3 else 0
         parts = [CSMX if role else CSM] + [C[rnd.choice(names)] for _k in range(rnd.randint(1, 6))]
         n = sum(len(p) for p in parts)
